@@ -251,6 +251,8 @@ func execC08(seg []Ev) []Ev {
 				e["hits"] = hits
 			case variants.Long:
 				e["rsec"] = int(r.AsLong() % (1 << 40))
+			case variants.Integer:
+				e["rsec"] = int(int64(r.AsInteger()) % (1 << 40))
 			case variants.DateTime:
 				t := r.AsDateTime()
 				e["rsec"] = int(t.Unix() % (1 << 40))
